@@ -260,7 +260,9 @@ def plan(tier, seed):
     for root in REPS:
         tasks.append(("L", b["leaf_n"], root))
     if "chain" in b:
-        tasks.append(("C", b["chain"]))
+        for first in [s_ for s_ in REPS if OPMAP[s_][2] == 2]:
+            for second in [s_ for s_ in REPS if OPMAP[s_][2] == 2]:
+                tasks.append(("C", b["chain"], first, second))
     return tasks
 
 
@@ -302,7 +304,8 @@ def gen(task):
     elif task[0] == "C":
         n = task[1]
         bins = [s for s in REPS if OPMAP[s][2] == 2]
-        for ops in itertools.product(bins, repeat=n):
+        for rest in itertools.product(bins, repeat=n - 2):
+            ops = (task[2], task[3]) + rest
             # left-leaning, right-leaning chains
             t = None
             for i, o in enumerate(ops):
